@@ -153,20 +153,22 @@ Variables (r : raw) (rl : rule).
 Hypothesis HN : normalize r = Ok rl.
 Hypothesis HW : spec_wf r = true.
 Hypothesis Hfr : r_freq r = MONTHLY.
-Hypothesis RB_ok : forall y m, 1 <= y <= 9999 -> 1 <= m <= 12 -> exists ii, rebuild rl ii_init y m = Ok ii.
-Hypothesis RB_eq : forall y m ii y' m', 1 <= y <= 9999 -> 1 <= m <= 12 -> rebuild rl ii_init y m = Ok ii ->
-  1 <= y' <= 9999 -> 1 <= m' <= 12 -> (y' <> y \/ m' <> m) ->
+Variables (ylo yhi : Z).
+Hypothesis RB_ok : forall y m, ylo <= y <= yhi -> 1 <= m <= 12 -> exists ii, rebuild rl ii_init y m = Ok ii.
+Hypothesis RB_eq : forall y m ii y' m', ylo <= y <= yhi -> 1 <= m <= 12 -> rebuild rl ii_init y m = Ok ii ->
+  ylo <= y' <= yhi -> 1 <= m' <= 12 -> (y' <> y \/ m' <> m) ->
   rebuild rl ii y' m' = rebuild rl ii_init y' m'.
-Hypothesis DF : forall y m ii i, 1 <= y <= 9999 -> 1 <= m <= 12 -> rebuild rl ii_init y m = Ok ii ->
+Hypothesis DF : forall y m ii i, ylo <= y <= yhi -> 1 <= m <= 12 -> rebuild rl ii_init y m = Ok ii ->
   dbm y m <= i < dbm y (m + 1) -> day_rejected rl ii i = Ok (negb (day_ok r (jan1 y + i))).
 
-Lemma monthly_step_quiet : forall k s, (exists cnt, at_pass_m r rl k cnt s) -> 0 <= k -> True ->
-  match step rl s with inl s' => exists cnt', at_pass_m r rl (k + 1) cnt' s' | inr (_, t) => quiet t end.
+Lemma monthly_step_quiet : forall k s, (exists cnt, inv_m r rl ylo yhi k cnt s) -> 0 <= k -> okp_m r yhi k ->
+  match step rl s with inl s' => exists cnt', inv_m r rl ylo yhi (k + 1) cnt' s' | inr (_, t) => quiet t end.
 Proof.
-  intros k s (cnt & A) Hk _.
+  intros k s (cnt & AA) Hk Hok.
+  pose proof AA as [A Hr].
   pose proof A as (Am & Ay & Ai & Ar & At & Ac).
-  pose proof monthly_days as D. specialize (D r rl). feed D.
-  destruct (D k cnt s A) as (ds & ds' & f & E1 & E2 & E3).
+  pose proof monthly_days as D. specialize (D r rl). feed D. specialize (D ylo yhi). feed D.
+  destruct (D k cnt s A Hr) as (ds & ds' & f & E1 & E2 & E3).
   pose proof (rebuild_ii_for rl _ _ (c_ii s) Ay Ar) as F.
   pose proof (dbm_mono (c_year s) 1 (c_month s) ltac:(lia) ltac:(lia) ltac:(lia)) as M1.
   pose proof (dbm_mono (c_year s) (c_month s + 1) 13 ltac:(lia) ltac:(lia) ltac:(lia)) as M2.
@@ -179,15 +181,17 @@ Proof.
       pose proof (In_zrange_nat_bounds _ _ _ Hi) as Bi. rewrite (f_yo _ _ F). unfold from_ordinal.
       replace ((1 <=? jan1 (c_year s) + i) && (jan1 (c_year s) + i <=? max_ord)) with true by lia. reflexivity.
     - exact At.
-    - intros c1 out1. pose proof monthly_advance2 as MA. specialize (MA r rl). feed MA.
-      destruct (MA k cnt s f c1 out1 A) as [(s' & EA & _)|(EA & _)]; [left; exists s'; exact EA|right; exact EA]. }
-  pose proof monthly_step2 as HS. specialize (HS r rl). feed HS. specialize (HS k cnt s A Hk I).
+    - intros c1 out1. pose proof monthly_advance2 as MA. specialize (MA r rl). feed MA. specialize (MA ylo yhi). feed MA.
+      destruct (MA k cnt s f c1 out1 AA Hok) as [(s' & EA & _)|(EA & _)]; [left; exists s'; exact EA|right; exact EA]. }
+  pose proof monthly_step2 as HS. specialize (HS r rl). feed HS. specialize (HS ylo yhi). feed HS.
+  specialize (HS k cnt s AA Hk Hok).
   split_step HS Q.
 Qed.
 
-Theorem monthly_quiet2 : forall limit n, quiet (snd (iterate rl limit n)).
+Theorem monthly_quiet2 : forall limit n, ylo <= r_y r <= yhi ->
+  (forall j, 0 <= j < Z.of_nat n -> okp_m r yhi j) -> quiet (snd (iterate rl limit n)).
 Proof.
-  intros limit n.
+  intros limit n Hr0 Hokn.
   destruct (normalize_misc r rl HN) as (Ni & Nsp & Ny & Nm & Nd & Nc & Nu).
   pose proof (normalize_freq r rl HN) as Nfr. rewrite Hfr in Nfr.
   assert (V : valid_ymd (r_y r) (r_m r) (r_d r) = true).
@@ -196,17 +200,18 @@ Proof.
       let H := fresh "W" in apply andb_true_iff in HW'; destruct HW' as [HW' H] end. assumption. }
   destruct (index_in_year _ _ _ V) as (_ & _ & Hy0).
   assert (Hm0 : 1 <= r_m r <= 12) by (unfold valid_ymd in V; lia).
-  destruct (RB_ok (r_y r) (r_m r) Hy0 Hm0) as (ii0 & R0).
+  destruct (RB_ok (r_y r) (r_m r) Hr0 Hm0) as (ii0 & R0).
   pose proof (timeset_is_spec r rl HN HW ltac:(rewrite Hfr; reflexivity)) as HT.
   unfold iterate, init_state. rewrite Nfr. change (MONTHLY =? WEEKLY) with false. cbn [andb]. cbv iota.
   rewrite Ny, Nm, Nd, R0. cbn [bind].
   change (MONTHLY <? HOURLY) with true. cbv iota. rewrite HT. cbn [bind]. rewrite Nc.
   set (s0 := mkSt _ _ _ _ _ _ _ _ _ _ _).
-  assert (A0 : exists cnt, at_pass_m r rl 0 cnt s0).
-  { exists (r_count r). unfold at_pass_m, s0, midx. cbn [c_year c_month c_ii c_timeset c_count].
+  assert (A0 : exists cnt, inv_m r rl ylo yhi 0 cnt s0).
+  { exists (r_count r). unfold inv_m, at_pass_m, s0, midx. cbn [c_year c_month c_ii c_timeset c_count].
+    split; [|exact Hr0].
     split; [exact Hm0|]. split; [exact Hy0|]. split; [ring|]. split; [exact R0|]. split; reflexivity. }
-  pose proof (run_quiet rl (fun k s => exists cnt, at_pass_m r rl k cnt s) (fun _ => True) monthly_step_quiet
-                limit n 0 s0 A0 ltac:(lia) (fun j _ => I)) as Q.
+  pose proof (run_quiet rl (fun k s => exists cnt, inv_m r rl ylo yhi k cnt s) (okp_m r yhi) monthly_step_quiet
+                limit n 0 s0 A0 ltac:(lia) ltac:(intros j Hj; apply Hokn; lia)) as Q.
   destruct (run rl limit n s0) as [out t]. exact Q.
 Qed.
 End MonthlyQuiet.
@@ -217,19 +222,21 @@ Variables (r : raw) (rl : rule).
 Hypothesis HN : normalize r = Ok rl.
 Hypothesis HW : spec_wf r = true.
 Hypothesis Hfr : r_freq r = YEARLY.
-Hypothesis RB_ok : forall y m, 1 <= y <= 9999 -> exists ii, rebuild rl ii_init y m = Ok ii.
-Hypothesis RB_eq : forall y m ii y', 1 <= y <= 9999 -> rebuild rl ii_init y m = Ok ii ->
-  1 <= y' <= 9999 -> y' <> y -> rebuild rl ii y' m = rebuild rl ii_init y' m.
-Hypothesis DF : forall y m ii i, 1 <= y <= 9999 -> rebuild rl ii_init y m = Ok ii ->
+Variables (ylo yhi : Z).
+Hypothesis RB_ok : forall y m, ylo <= y <= yhi -> exists ii, rebuild rl ii_init y m = Ok ii.
+Hypothesis RB_eq : forall y m ii y', ylo <= y <= yhi -> rebuild rl ii_init y m = Ok ii ->
+  ylo <= y' <= yhi -> y' <> y -> rebuild rl ii y' m = rebuild rl ii_init y' m.
+Hypothesis DF : forall y m ii i, ylo <= y <= yhi -> rebuild rl ii_init y m = Ok ii ->
   0 <= i < year_len y -> day_rejected rl ii i = Ok (negb (day_ok r (jan1 y + i))).
 
-Lemma yearly_step_quiet : forall k s, (exists cnt, at_pass_y r rl k cnt s) -> 0 <= k -> True ->
-  match step rl s with inl s' => exists cnt', at_pass_y r rl (k + 1) cnt' s' | inr (_, t) => quiet t end.
+Lemma yearly_step_quiet : forall k s, (exists cnt, inv_y r rl ylo yhi k cnt s) -> 0 <= k -> okp_y r yhi k ->
+  match step rl s with inl s' => exists cnt', inv_y r rl ylo yhi (k + 1) cnt' s' | inr (_, t) => quiet t end.
 Proof.
-  intros k s (cnt & A) Hk _.
+  intros k s (cnt & AA) Hk Hok.
+  pose proof AA as [A Hr].
   pose proof A as (Ay & Ai & Ar & At & Ac).
-  pose proof yearly_days as D. specialize (D r rl). feed D.
-  destruct (D k cnt s A) as (ds & ds' & f & E1 & E2 & E3).
+  pose proof yearly_days as D. specialize (D r rl). feed D. specialize (D ylo yhi). feed D.
+  destruct (D k cnt s A Hr) as (ds & ds' & f & E1 & E2 & E3).
   pose proof (rebuild_ii_for rl _ _ (c_ii s) Ay Ar) as F.
   destruct (jan1_bounds (c_year s) Ay) as [B1 B2].
   assert (Q : match step rl s with inl _ => True | inr (_, t) => quiet t end).
@@ -239,15 +246,17 @@ Proof.
       pose proof (In_zrange_nat_bounds _ _ _ Hi) as Bi. rewrite (f_yo _ _ F). unfold from_ordinal.
       replace ((1 <=? jan1 (c_year s) + i) && (jan1 (c_year s) + i <=? max_ord)) with true by lia. reflexivity.
     - exact At.
-    - intros c1 out1. pose proof yearly_advance2 as MA. specialize (MA r rl). feed MA.
-      destruct (MA k cnt s f c1 out1 A) as [(s' & EA & _)|(EA & _)]; [left; exists s'; exact EA|right; exact EA]. }
-  pose proof yearly_step2 as HS. specialize (HS r rl). feed HS. specialize (HS k cnt s A Hk I).
+    - intros c1 out1. pose proof yearly_advance2 as MA. specialize (MA r rl). feed MA. specialize (MA ylo yhi). feed MA.
+      destruct (MA k cnt s f c1 out1 AA Hok) as [(s' & EA & _)|(EA & _)]; [left; exists s'; exact EA|right; exact EA]. }
+  pose proof yearly_step2 as HS. specialize (HS r rl). feed HS. specialize (HS ylo yhi). feed HS.
+  specialize (HS k cnt s AA Hk Hok).
   split_step HS Q.
 Qed.
 
-Theorem yearly_quiet2 : forall limit n, quiet (snd (iterate rl limit n)).
+Theorem yearly_quiet2 : forall limit n, ylo <= r_y r <= yhi ->
+  (forall j, 0 <= j < Z.of_nat n -> okp_y r yhi j) -> quiet (snd (iterate rl limit n)).
 Proof.
-  intros limit n.
+  intros limit n Hr0 Hokn.
   destruct (normalize_misc r rl HN) as (Ni & Nsp & Ny & Nm & Nd & Nc & Nu).
   pose proof (normalize_freq r rl HN) as Nfr. rewrite Hfr in Nfr.
   assert (V : valid_ymd (r_y r) (r_m r) (r_d r) = true).
@@ -255,17 +264,18 @@ Proof.
     repeat match type of HW' with _ && _ = true =>
       let H := fresh "W" in apply andb_true_iff in HW'; destruct HW' as [HW' H] end. assumption. }
   destruct (index_in_year _ _ _ V) as (_ & _ & Hy0).
-  destruct (RB_ok (r_y r) (r_m r) Hy0) as (ii0 & R0).
+  destruct (RB_ok (r_y r) (r_m r) Hr0) as (ii0 & R0).
   pose proof (timeset_is_spec r rl HN HW ltac:(rewrite Hfr; reflexivity)) as HT.
   unfold iterate, init_state. rewrite Nfr. change (YEARLY =? WEEKLY) with false. cbn [andb]. cbv iota.
   rewrite Ny, Nm, Nd, R0. cbn [bind].
   change (YEARLY <? HOURLY) with true. cbv iota. rewrite HT. cbn [bind]. rewrite Nc.
   set (s0 := mkSt _ _ _ _ _ _ _ _ _ _ _).
-  assert (A0 : exists cnt, at_pass_y r rl 0 cnt s0).
-  { exists (r_count r). unfold at_pass_y, s0. cbn [c_year c_month c_ii c_timeset c_count].
+  assert (A0 : exists cnt, inv_y r rl ylo yhi 0 cnt s0).
+  { exists (r_count r). unfold inv_y, at_pass_y, s0. cbn [c_year c_month c_ii c_timeset c_count].
+    split; [|exact Hr0].
     split; [exact Hy0|]. split; [ring|]. split; [exact R0|]. split; reflexivity. }
-  pose proof (run_quiet rl (fun k s => exists cnt, at_pass_y r rl k cnt s) (fun _ => True) yearly_step_quiet
-                limit n 0 s0 A0 ltac:(lia) (fun j _ => I)) as Q.
+  pose proof (run_quiet rl (fun k s => exists cnt, inv_y r rl ylo yhi k cnt s) (okp_y r yhi) yearly_step_quiet
+                limit n 0 s0 A0 ltac:(lia) ltac:(intros j Hj; apply Hokn; lia)) as Q.
   destruct (run rl limit n s0) as [out t]. exact Q.
 Qed.
 End YearlyQuiet.
@@ -601,7 +611,7 @@ Proof.
   assert (TE : truthy (byeaster rl) = false) by (rewrite Nea, He; reflexivity).
   destruct (plain_only r) eqn:Hp.
   - pose proof (plain_only_no_nth r rl HN Hp) as TN.
-    apply (monthly_quiet2 r rl HN HW Hfr).
+    apply (monthly_quiet2 r rl HN HW Hfr 1 9999); [| | |apply (start_year_range_m r HW)|intros j _; unfold okp_m; lia].
     + intros y m Hy Hm. apply (rebuild_succeeds rl y m Hy Hwk TN (or_introl TE)).
     + intros y m ii y' m' Hy Hm Ar Hy' Hm' Hne.
       destruct (Z.eq_dec y' y) as [->|Hney].
@@ -617,7 +627,7 @@ Proof.
       apply (day_filter_correct_guarded r rl y m ii i HN HW Hp Hs (or_introl He) Hy Ar). lia.
   - pose proof (not_plain_has_nth r rl HN ltac:(rewrite Hfr; reflexivity) Hp) as TN.
     pose proof (nth_pairs_ok r rl HN HW ltac:(rewrite Hfr; reflexivity)) as PK.
-    apply (monthly_quiet2 r rl HN HW Hfr).
+    apply (monthly_quiet2 r rl HN HW Hfr 1 9999); [| | |apply (start_year_range_m r HW)|intros j _; unfold okp_m; lia].
     + intros y m Hy Hm. apply (rebuild_nth_succeeds rl y m Hy Hm Hwk Nfr TN TE PK).
     + intros y m ii y' m' Hy Hm Ar Hy' Hm' Hne.
       destruct (Z.eq_dec y' y) as [->|Hney].
@@ -638,7 +648,7 @@ Proof.
   assert (TE : truthy (byeaster rl) = false) by (rewrite Nea, He; reflexivity).
   destruct (plain_only r) eqn:Hp.
   - pose proof (plain_only_no_nth r rl HN Hp) as TN.
-    apply (yearly_quiet2 r rl HN HW Hfr).
+    apply (yearly_quiet2 r rl HN HW Hfr 1 9999); [| | |apply (start_year_range r HW)|intros j _; unfold okp_y; lia].
     + intros y m Hy. apply (rebuild_succeeds rl y m Hy Hwk TN (or_introl TE)).
     + intros y m ii y' Hy Ar Hy' Hne.
       destruct (rebuild_slots rl y m ii Hy Ar) as (LY & EM).
@@ -664,7 +674,7 @@ Proof.
       assert (RM : forall mo, In mo (opt_list (bymonth rl)) -> 1 <= mo <= 12).
       { rewrite EBM. cbn [opt_list]. intros mo Hmo. apply (proj1 (In_sort_set' mo lm)) in Hmo. cbn [all_opt] in AM.
         rewrite forallb_forall in AM. specialize (AM mo Hmo). unfold between in AM. lia. }
-      apply (yearly_quiet2 r rl HN HW Hfr).
+      apply (yearly_quiet2 r rl HN HW Hfr 1 9999); [| | |apply (start_year_range r HW)|intros j _; unfold okp_y; lia].
       * intros y m Hy. apply (rebuild_nth_succeeds_ym rl y m Hy Hwk Nfr TB RM TN TE PK).
       * intros y m ii y' Hy Ar Hy' Hne.
         destruct (rebuild_slots rl y m ii Hy Ar) as (LY & EM).
@@ -678,7 +688,7 @@ Proof.
         { unfold no_day_part. unfold plain_only in Hp. destruct (r_byweekday r); [|discriminate Hp].
           cbn [is_none]. rewrite andb_false_r. reflexivity. }
         rewrite ND. reflexivity. }
-      apply (yearly_quiet2 r rl HN HW Hfr).
+      apply (yearly_quiet2 r rl HN HW Hfr 1 9999); [| | |apply (start_year_range r HW)|intros j _; unfold okp_y; lia].
       * intros y m Hy. apply (rebuild_nth_succeeds_y rl y m Hy Hwk Nfr TB TN TE PK).
       * intros y m ii y' Hy Ar Hy' Hne.
         destruct (rebuild_slots rl y m ii Hy Ar) as (LY & EM).
